@@ -25,6 +25,7 @@ HAZARD_EVERY = 7          # C10: every 7th run is a hazard program (stale-alias 
 MAX_RAW_PER_CHUNK = 12
 MAX_CLASSES = 12
 MAX_MIN_PER_CLASS = 2
+MINIMISE_BUDGET_S = 120
 
 
 def _h(s):
@@ -305,9 +306,12 @@ def main(prop, tier, runs=None, k=None, write=True):
     for case in lists["__raw__"]:
         by_class.setdefault(div_class(case, case["divergence"]), []).append(case)
     seen = set()
+    t_min = time.time()
     for cls, cases in list(by_class.items())[:MAX_CLASSES]:
         for case in cases[:MAX_MIN_PER_CLASS]:
-            small, d, used = minimise(case)
+            if violations and time.time() - t_min > MINIMISE_BUDGET_S:
+                break       # enough minimised witnesses; never let reporting run into the command's timeout
+            small, d, used = minimise(case, budget=1500 if time.time() - t_min < MINIMISE_BUDGET_S / 2 else 300)
             if d is None:
                 raise pool.HarnessFailure(f"divergence did not reproduce in the parent process: {case['origin']}")
             key = json.dumps([small["program"], small["a"], small["b"]], sort_keys=True)
